@@ -354,7 +354,7 @@ fn read_suite<W: Write>(t: &Tables, thorough: bool, rng: &mut Rng, out: &mut W) 
         enumerate_strings(&a6, 6, out);
         enumerate_strings(&a8, 5, out);
     }
-    let n = if thorough { 200000 } else { 15000 };
+    let n = if thorough { 200000 } else { 40000 };
     for i in 0..n {
         let mut budget = if i % 50 == 0 { 200 } else { rng.range(1, 30) };
         let mut rings = Vec::new();
